@@ -25,6 +25,22 @@ pub struct FileSystem {
     tmp_file_counter: AtomicU64,
 }
 
+/// Every part of a multipart upload but the last must be at least this large
+#[cfg(not(s3s_verif))]
+pub(crate) fn min_part_size() -> u64 {
+    5 * 1024 * 1024
+}
+
+/// Verification hook: the minimum part size can be lowered, compiled only with `--cfg s3s_verif`.
+#[cfg(s3s_verif)]
+#[doc(hidden)]
+pub static __VERIF_MIN_PART_SIZE: AtomicU64 = AtomicU64::new(5 * 1024 * 1024);
+
+#[cfg(s3s_verif)]
+pub(crate) fn min_part_size() -> u64 {
+    __VERIF_MIN_PART_SIZE.load(Ordering::SeqCst)
+}
+
 pub(crate) type InternalInfo = serde_json::Map<String, serde_json::Value>;
 
 fn clean_old_tmp_files(root: &Path) -> std::io::Result<()> {
